@@ -186,7 +186,7 @@ def cap_stable(progs):
 GROWING_OPS = {'push_back', 'emplace_back', 'insert', 'emplace', 'append', 'resize'}
 
 
-def exact_who(progs):
+def exact_who(progs, all_entries=False):
     """Who may ask for an exact (non geometric) capacity: a call that passes anything but `false` to a parameter named `exact`
     is an exact request; no element-adding operation may reach one (reserve / shrink_to_fit / assignments / constructors may)."""
     rr = RuleResult('EXACT-WHO', 'no element-adding operation (push_back, emplace_back, insert, emplace, append, resize) reaches a capacity request '
@@ -214,8 +214,12 @@ def exact_who(progs):
                 exactish[f['id']] = (prog.site(f, c), tgt['name'])
                 exact_sites += 1
         for f in prog.amc_functions():
-            if short(f['name']) not in GROWING_OPS or f.get('access') != 'public':
+            if f.get('access') != 'public':
                 continue
+            if not all_entries and short(f['name']) not in GROWING_OPS:
+                continue
+            if all_entries and (short(f['name']) in ('reserve', 'shrink_to_fit') or f.get('kind') == 'dtor'):
+                continue      # reserve takes a size_type: its request cannot exceed the maximum of that type
             if not (f['name'].startswith(VEC_NS) or f['name'].startswith('amc::Vector::')):
                 continue
             reach = prog.reachable(f['id'])
@@ -302,6 +306,34 @@ def throw_type(progs):
                     if not ok:
                         rr.add(Finding('THROW-TYPE', '%s|cond' % f['key'], prog.site(f, n),
                                        'at() does not throw exactly when idx >= size()', where=f['pname'], unit=prog.uname))
+            if f['name'] == 'amc::vec::swap_sizetype' and not f.get('nothrow'):
+                # the exchange is impossible exactly when a value exceeds the maximum of the other size type: `max < value` (strict)
+                Ps = A.Parents(body)
+                for n in [x for x in walk(body) if x.get('k') == 'throw' and x.get('sub') is not None]:
+                    ok = False
+                    seen_cmp = False
+                    for cond, truth in Ps.guards(n):
+                        cn, neg = unwrap_cond(cond)
+                        t = truth != neg
+                        if not (isinstance(cn, dict) and cn.get('k') == 'bin' and cn.get('op') in ('<', '>', '<=', '>=')):
+                            continue
+                        l, r = A.strip(cn['lhs']), A.strip(cn['rhs'])
+                        lconst, rconst = l.get('cv') is not None, r.get('cv') is not None
+                        lpar = l.get('k') == 'ref' and l.get('dk') == 'param'
+                        rpar = r.get('k') == 'ref' and r.get('dk') == 'param'
+                        if not ((lconst and rpar) or (lpar and rconst)):
+                            continue      # e.g. the sizeof comparison selecting the direction
+                        seen_cmp = True
+                        op = cn['op']
+                        # value strictly greater than the constant maximum
+                        if (lconst and rpar and ((op == '<' and t) or (op == '>=' and not t))) or (lpar and rconst and ((op == '>' and t) or (op == '<=' and not t))):
+                            ok = True
+                    rr.instance('%s|range|%s' % (f['key'], rel(prog.site(f, n))), {'function': f['pname'][:120], 'throws_iff_value_exceeds_max': ok or not seen_cmp})
+                    if seen_cmp and not ok:
+                        rr.add(Finding('THROW-TYPE', '%s|range' % f['key'], prog.site(f, n),
+                                       'swap_sizetype does not throw exactly when a size exceeds the maximum of the other size type (the comparison with the '
+                                       'maximum is not the strict `max < value`): an exchange that is possible is refused, or an impossible one accepted',
+                                       where=f['pname'], unit=prog.uname))
             if f['name'] == 'amc::vec::ExceptionGrowingPolicy::Check':
                 P = A.Parents(body)
                 ths = [n for n in walk(body) if n.get('k') == 'throw']
@@ -619,3 +651,60 @@ def is_cmp_call(n, cmp_t):
 def cmp_typed(n, cmp_t):
     t = n.get('t', '').replace('const ', '').strip()
     return t == cmp_t
+
+
+# ------------------------------------------------------------------------------ GROW-BASIS
+def grow_basis(progs):
+    """The geometric candidate is 1.5 x the *current capacity*.  In SmallVectorBase the two size words swap their meaning between the
+    inline and the heap state, so the first argument of SafeNextCapacity must be capacity() - or `_capa` where the vector is known to
+    be large, or the decoded inline capacity (`_size == max ? _capa : _size`) where it is known to be inline."""
+    rr = RuleResult('GROW-BASIS', 'every SafeNextCapacity call is given the current capacity as its basis: capacity(), `_capa` in the large state, or the '
+                                  'decoded inline capacity in the inline state (never the word that holds the size)')
+    SVB = 'amc::vec::SmallVectorBase'
+    for prog in progs:
+        for f in prog.amc_functions():
+            body = f.get('body')
+            if body is None or f.get('clsq') not in (SVB, 'amc::vec::StdVectorBase'):
+                continue
+            calls = [c for c in A.calls(body) if A.callee(c) == 'amc::vec::SafeNextCapacity' and c.get('args')]
+            if not calls:
+                continue
+            linit = A.local_inits(body)
+            P = A.Parents(body)
+            written = {A.strip(l).get('did') for _s, l in A.stores(body) if isinstance(A.strip(l), dict) and A.strip(l).get('k') == 'ref'}
+
+            def state_at(n):
+                for cond, truth in P.guards(n):
+                    cn, neg = unwrap_cond(cond)
+                    if isinstance(cn, dict) and cn.get('k') == 'call' and A.callee(cn) == SVB + '::isSmall':
+                        return 'small' if (truth != neg) else 'large'
+                return None
+
+            def is_capacity(x, at, depth=0):
+                x = A.strip(x)
+                if not isinstance(x, dict) or depth > 3:
+                    return False
+                if x.get('k') == 'call' and x.get('method') and A.cshort(x) == 'capacity' and not x.get('args'):
+                    return True
+                if x.get('k') == 'mem' and x.get('field') and x.get('name') == '_capa':
+                    return f.get('clsq') != SVB or state_at(at) == 'large'
+                if x.get('k') == 'cond':
+                    # _size == max ? _capa : _size   (inline state)
+                    c = A.strip(x.get('c'))
+                    dec = isinstance(c, dict) and c.get('k') == 'bin' and c.get('op') in ('==', '!=') and any(y.get('k') == 'mem' and y.get('name') == '_size' for y in walk(c))
+                    a, b = A.strip(x.get('a')), A.strip(x.get('b'))
+                    if c.get('op') == '!=':
+                        a, b = b, a
+                    return dec and state_at(at) == 'small' and a.get('name') == '_capa' and b.get('name') == '_size'
+                if x.get('k') == 'ref' and x.get('dk') == 'local' and x.get('did') not in written and linit.get(x.get('did')) and linit[x['did']][0] is not None:
+                    ini = linit[x['did']][0]
+                    return is_capacity(ini, ini, depth + 1)
+                return False
+            for c in calls:
+                ok = is_capacity(c['args'][0], c)
+                rr.instance('%s|%s' % (f['key'], rel(prog.site(f, c))), {'function': f['pname'][:140], 'basis_is_current_capacity': ok, 'state': state_at(c)})
+                if not ok:
+                    rr.add(Finding('GROW-BASIS', '%s' % f['key'], prog.site(f, c),
+                                   'SafeNextCapacity is not given the current capacity as its basis (in the inline state `_capa` holds the size): the first heap '
+                                   'block is sized from size() instead of the capacity and the next append reallocates again', where=f['pname'], unit=prog.uname))
+    return rr
